@@ -60,6 +60,8 @@ impl Offset {
                 #[cfg(unix)]
                 return {
                     let result = fs::read("/etc/localtime");
+                    #[cfg(astrolabe_verif)]
+                    let result = crate::verif::override_localtime(result);
                     match result {
                         Ok(bytes) => {
                             TimeZone::from_tzif(&bytes)
